@@ -37,6 +37,7 @@ std::string spellKey(int style, int id, util::Rng& rng) {
   case 3: return numeric[id % 16];
   case 4: return std::string(4096, (char)('a' + id % 26)) + std::to_string(id);
   case 5: return std::string("x") + std::string(1, '\0') + std::string(1, (char)id);
+  case 6: return std::string(1, '\0') + std::string(1, (char)(1 + id % 250)) + "k";
   default: return "k" + std::to_string(id);
   }
 }
@@ -60,7 +61,7 @@ Json EngineGen::generate(uint64_t seed, const runner::GenOptions& opt, const Eng
 
   int nKeys = (int)rng.range(f.minKeys, f.maxKeys);
   int keyStyle = 0;
-  if (f.hostileKeys && rng.chance(450)) keyStyle = (int)rng.range(1, 5);
+  if (f.hostileKeys && rng.chance(450)) keyStyle = (int)rng.range(1, 6);
   if (keyStyle == 3 && !f.numericKeys) keyStyle = 0;
   if (opt.forced("numeric-keys")) keyStyle = 3;
   if (opt.excluded("numeric-keys") && keyStyle == 3) keyStyle = 1;
@@ -141,6 +142,7 @@ Json EngineGen::generate(uint64_t seed, const runner::GenOptions& opt, const Eng
         }
       }
       if (useCollapse && rng.chance(500)) r.collapse = (unsigned)rng.range(1, 3);
+      if (useCollapse && f.hostileValues && rng.chance(120)) r.empty = true;
       if (useForce && rng.chance(300)) r.force = true;
       r.pad = rng.chance(150) ? (unsigned)rng.range(1, 300) : 0;
       computed.push_back(r.id);
@@ -206,13 +208,20 @@ Json EngineGen::generate(uint64_t seed, const runner::GenOptions& opt, const Eng
   Json hist = Json::arr();
   int nOps = (int)rng.range(f.minOps, f.maxOps);
   int builds = 0;
-  auto pickTarget = [&]() -> int {
+  auto pickTargetOnce = [&]() -> int {
     if (!computed.empty() && rng.chance(850)) {
       // prefer late (high) rules: they reach more of the graph
       size_t i = computed.size() - 1 - (size_t)rng.below(std::min<size_t>(computed.size(), 3));
       return computed[i];
     }
     return (int)rng.range(1, nKeys);
+  };
+  // build() reports failure as the empty value, so a rule whose value is empty cannot be told from a failed build: never a target
+  auto pickTarget = [&]() -> int {
+    int t = pickTargetOnce();
+    for (int tries = 0; tries < 16 && prog.rules.count(t) && prog.rules[t].empty; tries++) t = pickTargetOnce();
+    if (prog.rules.count(t) && prog.rules[t].empty) t = 1;
+    return t;
   };
   int mainTarget = pickTarget();
   auto addBuild = [&]() {
@@ -1412,7 +1421,7 @@ std::string Run::dumpDatabase() {
 void Run::opBuild(const Json& op) {
   int k = (int)op.getn("k");
   const RuleSpec* target = prog.get(k);
-  if (!target) return;
+  if (!target || target->empty) return;
   if (restartEveryBuild && buildNo > 0) doRestart();
   bool killWindow = killBuild && buildNo + 1 == killBuild;
   std::set<std::string> invalidSnapshot = invalidOnce;
@@ -1500,6 +1509,7 @@ void Run::opBuild(const Json& op) {
       }
       if (!cancelAbort && inBuild) doCancel(false);
       else ctr()["cancel_too_late"]++;
+      sim::hb_release(&cancelDone);
       cancelDone = true;
     });
   }
@@ -1517,6 +1527,7 @@ void Run::opBuild(const Json& op) {
   cancelAbort = true;
   cancelGo = true;
   if (!cancelDone) sim::block_until([this]() { return cancelDone; }, 0, "join-canceller");
+  sim::hb_acquire(&cancelDone);   // the harness joined its canceller thread: say so to ThreadSanitizer
   if (killWindow) {
     // the connection is closed by the engine at the end of build(); the window ends here
     closeWindow();
